@@ -103,6 +103,15 @@ func producerOracle(m *MsgDesc, steps [][2]string) string {
 			if after.sid != sid || !bytes.Equal(after.sys, pad4(sys)) {
 				return fmt.Sprintf("SetSessionIDAndSystemBytes(%d, %x) stored %d %x", sid, sys, after.sid, after.sys)
 			}
+		case "fill":
+			pan, _ = safely(func() { next = cur.FillVariables(map[string]interface{}{st[1]: "x_renamed"}) })
+			if pan {
+				continue // an ASCII variable refuses a string outside its bounds; not a producer concern
+			}
+			after := observe(next)
+			if d := before.diff(after, "item"); d != "" {
+				return "FillVariables changed other fields: " + d
+			}
 		}
 		// the result passes the validity rules of a fresh construction
 		if p2, _ := safely(func() {
@@ -139,7 +148,18 @@ func suiteC18(c *Ctx) []Suite {
 				ops := []string{m.newStep()}
 				var steps [][2]string
 				for k := 0; k < n; k++ {
-					if c.R.Intn(2) == 0 {
+					if x := c.R.Intn(5); x == 0 {
+						// FillVariables: fill one variable of the item (if any) with a rename, or an unknown key
+						var vars []varRef
+						collectVars(item, &vars)
+						key, val := "nokey", sintTok(0, 1)
+						if len(vars) > 0 && c.R.Intn(4) > 0 {
+							key, val = vars[c.R.Intn(len(vars))].name, strTok(fmt.Sprintf("ren%d_%d", i, k))
+						}
+						a := "1 " + hxs(key) + " " + val
+						ops = append(ops, "fill "+a)
+						steps = append(steps, [2]string{"fill", key})
+					} else if x < 3 {
 						b := fmt.Sprint(c.R.Intn(2))
 						ops = append(ops, "wait "+b)
 						steps = append(steps, [2]string{"wait", b})
